@@ -2,6 +2,7 @@ package rules
 
 import (
 	"fmt"
+	"go/token"
 	"math/big"
 	"path/filepath"
 	"sort"
@@ -238,7 +239,72 @@ func checkPow2kShape(c *Ctx, prog *load.Program, s ringSpec, name string) {
 			}
 		}
 	}
-	c.R.Decide(ok, rule, "shape/"+name, pos, detail+"; with the unrolled instances k=1..5 this gives a^(2^k) for every k >= 1 by induction", detail)
+	if ok {
+		c.R.OK(rule, "shape/"+name, pos, detail+"; with the unrolled instances k=1..5 this gives a^(2^k) for every k >= 1 by induction")
+		return
+	}
+	// The loop is not in the recognised counted form.  The routine is not part of the public API (internal package /
+	// unexported method), so it is enough that every call site in the module passes a constant k and that the
+	// instance for each such k, unrolled by constant propagation, computes a^(2^k).
+	var ks []int64
+	seen := map[int64]bool{}
+	allConst, sites := true, 0
+	var bad string
+	for _, g := range ModuleFuncs(prog) {
+		for _, b := range g.Blocks {
+			for _, in := range b.Instrs {
+				call, isCall := in.(ssa.CallInstruction)
+				if !isCall || call.Common().StaticCallee() != fn {
+					continue
+				}
+				sites++
+				k, isC := call.Common().Args[2].(*ssa.Const)
+				if !isC || k.Value == nil {
+					allConst = false
+					bad = PosStr(prog, call.Pos())
+					continue
+				}
+				if !seen[k.Int64()] {
+					seen[k.Int64()] = true
+					ks = append(ks, k.Int64())
+				}
+			}
+		}
+	}
+	for _, g := range ModuleFuncs(prog) {
+		// the routine used as a value (method value, closure) could be called with any k
+		for _, b := range g.Blocks {
+			for _, in := range b.Instrs {
+				if _, isCall := in.(ssa.CallInstruction); isCall {
+					continue
+				}
+				for _, op := range in.Operands(nil) {
+					if op != nil && *op == ssa.Value(fn) {
+						allConst = false
+						bad = PosStr(prog, in.Pos())
+					}
+				}
+			}
+		}
+	}
+	if !allConst || sites == 0 {
+		c.R.Fail(rule, "shape/"+name, pos, detail+"; and not every call site passes a constant k ("+bad+")")
+		return
+	}
+	sort.Slice(ks, func(i, j int) bool { return ks[i] < ks[j] })
+	lower, upper := s.lower(prog), s.upper()
+	all := true
+	for _, k := range ks {
+		if k >= 1 && k <= 5 {
+			continue // already an instance of this rule
+		}
+		if !validateModel(c, rule, prog, lower, upper, Method(s.ringType, name), nil, nil, map[int]absint.Val{2: sym.ConstI(k)}, fmt.Sprintf("/k=%d", k)) {
+			all = false
+		}
+	}
+	c.R.Decide(all, rule, "shape/"+name, pos,
+		fmt.Sprintf("loop not in the counted form (%s), but all %d call sites in the module pass a constant k in %v and the unrolled instance of every such k computes a^(2^k)", detail, sites, ks),
+		"an instance for a k used by the module is wrong (see the /k= obligations)")
 }
 
 // checkExponentChain: the addition chain computes x^expected.
@@ -553,9 +619,8 @@ func checkWhoWritesLimbs(c *Ctx, prog *load.Program, s ringSpec) {
 	}
 	// argument origin of the unchecked setter
 	setter := absint.FindFunc(prog.SSA, Method(s.ringType, "uncheckedSetSaturated"))
-	allowed := map[string]string{
-		"SetBytes": "reduced", "SetCanonicalBytes": "reduced", "setShortBytes": "short", "NewElementFromUint64": "literal", "NewScalarFromUint64": "literal", "mulGFlooredDiv": "128-bit",
-	}
+	// (no table of caller names: whoever calls the unchecked setter must pass a value that is below the modulus by one of
+	// the dataflow justifications; a helper that returns the reduced limbs is followed)
 	for _, fn := range ModuleFuncs(prog) {
 		for _, b := range fn.Blocks {
 			for _, in := range b.Instrs {
@@ -564,12 +629,19 @@ func checkWhoWritesLimbs(c *Ctx, prog *load.Program, s ringSpec) {
 					continue
 				}
 				key := "unchecked-setter/" + fn.Name()
-				kind, ok := allowed[fn.Name()]
-				if !ok {
-					c.R.Fail(rule, key, PosStr(prog, call.Pos()), "uncheckedSetSaturated called from a function without a proven range argument")
-					continue
+				good, why := false, ""
+				var whys []string
+				for _, kind := range []string{"reduced", "short", "literal", "128-bit"} {
+					g, w := setterArgJustified(fn, call, kind)
+					if g {
+						good, why = true, w
+						break
+					}
+					whys = append(whys, w)
 				}
-				good, why := setterArgJustified(fn, call, kind)
+				if !good {
+					why = "uncheckedSetSaturated called with an argument that is not proven below the modulus: " + strings.Join(whys, "; ")
+				}
 				c.R.Decide(good, rule, key, PosStr(prog, call.Pos()), why, why)
 			}
 		}
@@ -639,17 +711,10 @@ func setterArgJustified(fn *ssa.Function, call *ssa.Call, kind string) (bool, st
 	arg := call.Common().Args[1]
 	switch kind {
 	case "reduced":
-		// the argument must be the destination of a reduceSaturated call that dominates this call
-		for _, b := range fn.Blocks {
-			for _, in := range b.Instrs {
-				cc, ok := in.(*ssa.Call)
-				if !ok || cc.Common().StaticCallee() == nil || cc.Common().StaticCallee().Name() != "reduceSaturated" {
-					continue
-				}
-				if cc.Common().Args[0] == arg && (cc.Block().Dominates(call.Block())) {
-					return true, "argument is the output of reduceSaturated (value < modulus)"
-				}
-			}
+		// the argument must be the destination of a reduceSaturated call that dominates this call, or a local array
+		// that received the result of a helper which returns such a destination
+		if reducedBefore(fn, arg, call, 0) {
+			return true, "argument is the output of reduceSaturated (value < modulus)"
 		}
 		return false, "argument of the unchecked setter is not the output of a dominating reduceSaturated"
 	case "short":
@@ -702,6 +767,86 @@ func setterArgJustified(fn *ssa.Function, call *ssa.Call, kind string) (bool, st
 		return false, "upper limbs of the literal are not the constant 0"
 	}
 	return false, "unknown justification"
+}
+
+// instrBefore reports whether a is executed before b on every path reaching b (a dominates b).
+func instrBefore(a, b ssa.Instruction) bool {
+	if a.Block() != b.Block() {
+		return a.Block().Dominates(b.Block())
+	}
+	for _, in := range a.Block().Instrs {
+		if in == a {
+			return true
+		}
+		if in == b {
+			return false
+		}
+	}
+	return false
+}
+
+// reducedBefore: the array that ptr points to holds, at instruction at, the output of reduceSaturated.
+func reducedBefore(fn *ssa.Function, ptr ssa.Value, at ssa.Instruction, depth int) bool {
+	if depth > 3 {
+		return false
+	}
+	for _, b := range fn.Blocks {
+		for _, in := range b.Instrs {
+			switch x := in.(type) {
+			case *ssa.Call:
+				callee := x.Common().StaticCallee()
+				if callee != nil && callee.Name() == "reduceSaturated" && len(x.Common().Args) > 0 && x.Common().Args[0] == ptr && instrBefore(x, at) {
+					return true
+				}
+			case *ssa.Store:
+				// *ptr = <result of a helper returning reduced limbs>
+				if x.Addr != ptr || !instrBefore(x, at) {
+					continue
+				}
+				if returnsReduced(x.Val, depth) {
+					return true
+				}
+			}
+		}
+	}
+	return false
+}
+
+// returnsReduced: v is (a component of) the result of a module function all of whose returns yield the
+// output of reduceSaturated.
+func returnsReduced(v ssa.Value, depth int) bool {
+	idx := 0
+	if ex, ok := v.(*ssa.Extract); ok {
+		idx = ex.Index
+		v = ex.Tuple
+	}
+	call, ok := v.(*ssa.Call)
+	if !ok {
+		return false
+	}
+	g := call.Common().StaticCallee()
+	if g == nil || len(g.Blocks) == 0 || g.Pkg == nil || !load.IsModulePkg(g.Pkg.Pkg.Path()) {
+		return false
+	}
+	n := 0
+	for _, b := range g.Blocks {
+		ret, ok := b.Instrs[len(b.Instrs)-1].(*ssa.Return)
+		if !ok {
+			continue
+		}
+		n++
+		if idx >= len(ret.Results) {
+			return false
+		}
+		ld, ok := ret.Results[idx].(*ssa.UnOp)
+		if !ok || ld.Op != token.MUL {
+			return false
+		}
+		if !reducedBefore(g, ld.X, ld, depth+1) {
+			return false
+		}
+	}
+	return n > 0
 }
 
 func checkC02(c *Ctx) {
